@@ -15,6 +15,42 @@ pub fn spaces(tier: &str) -> Vec<(String, EOpts, Option<usize>)> {
     }
 }
 
+/// payload bindings are part of the contract (tuple payloads are bound as f0, f1, .., named ones by field name): a From
+/// expression may read ANOTHER payload field of the counterpart variant through its binding - also a counterpart-only
+/// field that a variant-level #[ghosts] fills in the other direction (seed C02-11)
+pub fn binding_modules() -> Vec<(String, Vec<String>, Vec<String>)> {
+    let mut v = vec![];
+    let d = "#[derive(Clone, Debug, PartialEq)]";
+    for sibling_is_ghost in [true, false] {
+        for owned_only in [false, true] {
+            let mut m = String::from("#![allow(unused, non_camel_case_types, clippy::all)]\nuse crate::common::*;\n");
+            for t in ["T", "Tf"] {
+                m.push_str(&format!("{d} pub enum {t} {{ A {{ x: i32, g: i32 }}, B(i32, i32), Z }}\n"));
+            }
+            // the sibling is either counterpart-only (variant-level ghosts) or a second mapped payload field
+            let (ga, gb, sa, sb) = if sibling_is_ghost { ("#[ghosts(g: { 7 })] ", "#[ghosts(1: { 7 })] ", "", "") } else { ("", "", ", g: i32", ", i32") };
+            let (kt, ktf) = if owned_only { ("#[map_owned(T)]", "#[try_map_owned(Tf, Er)]") } else { ("#[map(T)]", "#[try_map(Tf, Er)]") };
+            let fx = if owned_only { "#[from_owned(~ + g)]".to_string() } else { "#[from_owned(~ + g)] #[from_ref(*~ + *g)]".to_string() };
+            let f0 = if owned_only { "#[from_owned(~ + f1)]".to_string() } else { "#[from_owned(~ + f1)] #[from_ref(*~ + *f1)]".to_string() };
+            let by_ref = |e: &str| if owned_only { String::new() } else { e.to_string() };
+            let item = format!("{kt}\n{ktf}\npub enum S {{ {ga}A {{ {fx} {} x: i32{sa} }}, {gb}B({f0} {} i32{sb}), Z }}\n", by_ref("#[ref_into(*~)]"), by_ref("#[ref_into(*~)]")).replace("g: i32 }", &format!("{} g: i32 }}", by_ref("#[map_ref(*~)]"))).replace(", i32)", &format!(", {} i32)", by_ref("#[map_ref(*~)]")));
+            m.push_str(&format!("{d}\n#[derive(o2o::o2o)]\n{}", item));
+            m.push_str("pub fn run(r: &mut Rec) {\n");
+            let (sa_v, sb_v) = if sibling_is_ghost { ("S::A { x: 13 }", "S::B(24)") } else { ("S::A { x: 13, g: 3 }", "S::B(24, 4)") };
+            for (tn, fallible) in [("T", false), ("Tf", true)] {
+                let w = |e: &str| if fallible { format!("Ok::<_, Er>({})", e) } else { e.to_string() };
+                let (fo, fr) = if fallible { (format!("<S as TryFrom<{tn}>>::try_from"), format!("<S as TryFrom<&{tn}>>::try_from")) } else { (format!("<S as From<{tn}>>::from"), format!("<S as From<&{tn}>>::from")) };
+                let l = if fallible { "try_" } else { "" };
+                m.push_str(&format!("  {{ let t = {tn}::A {{ x: 10, g: 3 }}; r.eq(\"{l}from_owned/A\", &{fo}(t.clone()), &{}); {} }}\n", w(sa_v), by_ref(&format!("r.eq(\"{l}from_ref/A\", &{fr}(&t), &{});", w(sa_v)))));
+                m.push_str(&format!("  {{ let t = {tn}::B(20, 4); r.eq(\"{l}from_owned/B\", &{fo}(t.clone()), &{}); {} }}\n", w(sb_v), by_ref(&format!("r.eq(\"{l}from_ref/B\", &{fr}(&t), &{});", w(sb_v)))));
+            }
+            m.push_str("}\n");
+            v.push((m, vec![item], vec!["payload-binding-read".to_string(), format!("sibling={}", if sibling_is_ghost { "counterpart-only (variant ghosts)" } else { "mapped" }), format!("owned_only={}", owned_only)]));
+        }
+    }
+    v
+}
+
 pub fn collect(tier: &str, caps: &Caps, rep: &Report) -> Vec<BItem> {
     let items: Mutex<Vec<BItem>> = Mutex::new(vec![]);
     for (name, o, bound) in spaces(tier) {
@@ -29,12 +65,18 @@ pub fn collect(tier: &str, caps: &Caps, rep: &Report) -> Vec<BItem> {
         rep.add_stats(&name, &bound.map(|b| format!("dev({})", b)).unwrap_or("full".into()), &st);
         eprintln!("  space {}: {} choice vectors, {} pruned", name, st.leaves, st.pruned);
     }
+    let bm = binding_modules();
+    let nb = bm.len() as u64;
+    for (i, (module, inputs, tags)) in bm.into_iter().enumerate() {
+        items.lock().unwrap().push(BItem { space: "payload-bindings".into(), choices: vec![i as u32], tags, inputs, module, nontrivial: true });
+    }
+    rep.add_stats("payload-bindings", "full (fixed layouts)", &crate::explore::ExploreStats { leaves: nb, transitions: nb, ..Default::default() });
     items.into_inner().unwrap()
 }
 
 pub fn run(tier: &str) -> i32 {
     let rep = Report::new("C02", tier, "model_checking");
-    rep.set_rule("every enum case of the bounded grammar {1-3 variants (+ a sink variant) x shape unit|tuple|struct x variant menu: plain, rename, ghost with action, ghost without action (+ default case), type_hint flip (unit<->(), tuple<->{}, struct<->()), type_hint as Unit, variant-level ghosts, variant-level expressions x payload-field menu: plain, rename, ~expr, ghost with default x 0-3 enum-level ghosts (unit / V(..) / V{..} forms) x an uncovered counterpart variant (default case) x {owned kinds | all 8 From/Into kinds}} is rendered semantics-first, compiled through the real derive by rustc and executed: every variant of the source type with two payload assignments is converted and compared with the model's expected destination variant and payload. states = distinct test modules; non-trivial = any non-plain variant/field or enum-level ghost");
+    rep.set_rule("every enum case of the bounded grammar {1-3 variants (+ a sink variant) x shape unit|tuple|struct x variant menu: plain, rename, ghost with action, ghost without action (+ default case), type_hint flip (unit<->(), tuple<->{}, struct<->()), type_hint as Unit, variant-level ghosts, variant-level expressions x payload-field menu: plain, rename, ~expr, ghost with default x 0-3 enum-level ghosts (unit / V(..) / V{..} forms) x an uncovered counterpart variant (default case) x {owned kinds | all 8 From/Into kinds}} is rendered semantics-first, compiled through the real derive by rustc and executed: every variant of the source type with two payload assignments is converted and compared with the model's expected destination variant and payload; `payload-bindings`: From expressions that read a sibling payload field of the counterpart variant through its binding (f1 / field name), the sibling being mapped or counterpart-only (variant-level #[ghosts]). states = distinct test modules; non-trivial = any non-plain variant/field or enum-level ghost");
     rep.assume("payload leaves are i32; by-reference kinds use the documented `*~` form on every payload field; fallible flavours run against a layout-identical twin counterpart Tf");
     let caps = Caps::from_env(if tier == "quick" { 200.0 } else { 1500.0 });
     let items = collect(tier, &caps, &rep);
@@ -46,6 +88,30 @@ pub fn run(tier: &str) -> i32 {
 }
 
 pub fn replay(f: &Failure) -> i32 {
+    if f.space == "payload-bindings" {
+        let item = match binding_modules().into_iter().enumerate().find(|(i, _)| vec![*i as u32] == f.choices) {
+            Some((_, (module, inputs, tags))) => BItem { space: f.space.clone(), choices: f.choices.clone(), tags, inputs, module, nontrivial: true },
+            None => {
+                eprintln!("MACHINERY-ERROR: cannot re-render {:?}", f.choices);
+                return 2;
+            }
+        };
+        let rep = Report::new("C02", "quick", "model_checking");
+        if let Err(e) = run_items("C02", vec![item], &rep, BOpts { no_std: false, features: "", name: "c02-replay0".into(), keep: false }) {
+            eprintln!("MACHINERY-ERROR: {}", e);
+            return 2;
+        }
+        let fl = rep.failures.lock().unwrap();
+        if fl.is_empty() {
+            println!("replay: no failure on this tree");
+            return 0;
+        }
+        for x in fl.iter() {
+            println!("REPLAYED property=C02 kind={} detail={}", x.kind, x.detail);
+        }
+        println!("input:\n{}", f.input);
+        return 1;
+    }
     for t in ["quick", "thorough"] {
         for (name, o, _) in spaces(t) {
             if name != f.space {
